@@ -2,7 +2,7 @@ package PKGNAME
 
 // C21 — Map state pagination enumerates every key exactly once.
 //
-// Real MemoryMapBroker (inside a synctest bubble: fixed clock, broker goroutines torn down per case). A drawn build
+// Real MemoryMapBroker (real clock, TTLs >= 1 h; broker goroutines end with Close per case). A drawn build
 // script (publish / overwrite / remove) creates a state, then several drawn pagination runs (direction, page size)
 // and single-key reads are executed against the unchanged state and compared with an independent model:
 //   * unordered channel: key ascending (byte-wise) — findUnorderedCursorPosition doc: "sorted slice", cursor = last key;
@@ -14,6 +14,7 @@ package PKGNAME
 import (
 	"context"
 	"fmt"
+	"runtime/debug"
 	"sort"
 	"strconv"
 	"strings"
@@ -142,6 +143,15 @@ func vfC21Node() (*Node, error) {
 		}}})
 	})
 	return vfC21NodeVal, vfC21NodeErr
+}
+
+func vfC21Guard(f func() string) (out string) {
+	defer func() {
+		if r := recover(); r != nil {
+			out = fmt.Sprintf("PANIC: %v\n%s", r, debug.Stack())
+		}
+	}()
+	return f()
 }
 
 type vfC21Nop struct{}
@@ -315,7 +325,9 @@ func TestVF_C21(t *testing.T) {
 		if nerr != nil {
 			rt.Fatalf("INFRA: node: %v", nerr)
 		}
-		verdict := vfBubble(t, func() string {
+		// No virtual clock needed: every TTL is >= 1 h and no verdict depends on time, so the broker runs on the real
+		// clock (its sweep goroutines end with Close); this avoids the per-bubble GC cycles (20x faster).
+		verdict := vfC21Guard(func() string {
 			chOpts := MapChannelOptions{Mode: mode, ordered: ordered}
 			switch mode {
 			case MapModeEphemeral:
